@@ -45,6 +45,8 @@ def c_one_cell(F, X, rep, rid="C20-C"):
         for c in b.calls:
             if c.name == "tokio::sync::Mutex::new" and "Mutex<u32>" in c.full.replace(" ", "") or (c.name in ("tokio::sync::Mutex::new", "std::sync::Mutex::new") and c.t.get("rty", "").replace(" ", "").endswith("Mutex<u32>")):
                 news.append(c)
+            elif c.name.split("::")[-1] in ("default", "const_new", "from") and not c.noise and re.search(r"(^|<)(tokio::sync::|std::sync::)Mutex<u32>>?$", c.t.get("rty", "").replace(" ", "")):
+                news.append(c)                    # `Arc::default()` / `Mutex::default()` / `Mutex::from(0)`
     sites = sorted({c.loc for c in news})
     rep.anchor(rid, "constructions of the Mutex<u32> height cell", len(sites), 1)
     rep.ob(rid, len(sites) == 1, "block_watcher", "the height cell is created once", where=sites[1] if len(sites) > 1 else (sites[0] if sites else ""), how="%d site(s)" % len(sites),
